@@ -164,6 +164,15 @@ func (p *pool) pickChunk(t *rapid.T) (*member, uint64, bool) {
 
 func (p *pool) newMember(t *rapid.T) {
 	bs := gen.Bitmap(t, "new", gen.KindsValid, false)
+	if p.mode == modeC14 && rapid.IntRange(0, 3).Draw(t, "tightUniverse") != 0 {
+		// the size bound only bites when the universe is tight: chunk keys 0..n-1
+		n := rapid.IntRange(1, 6).Draw(t, "tightN")
+		keys := make([]uint16, n)
+		for i := range keys {
+			keys[i] = uint16(i)
+		}
+		bs = gen.BitmapWithKeys(t, "new", keys, gen.KindsValid)
+	}
 	if len(p.ms) > 0 && rapid.Bool().Draw(t, "related") {
 		// same keys as an existing member so that chunks meet
 		o := p.pick(t, "like")
@@ -480,6 +489,95 @@ func (p *pool) rules(t *rapid.T) map[string]func(*rapid.T) {
 			x.b.RemoveRange(s, e)
 			if e > s {
 				x.m.RemoveRange(s, e-1)
+			}
+		},
+		"cutLongRun": func(t *rapid.T) {
+			// a range removal (inside one chunk, or starting in an earlier chunk) that ends exactly
+			// behind the longest interval of a chunk: what is left of a run chunk may only be scattered values
+			x, k, ok := p.pickChunk(t)
+			if !ok {
+				t.Skip("no chunk")
+			}
+			ivs := x.m.Window(k<<16, k<<16+65535).Intervals()
+			if len(ivs) == 0 {
+				t.Skip("chunk vanished")
+			}
+			best := ivs[0]
+			for _, iv := range ivs {
+				if iv.Hi-iv.Lo > best.Hi-best.Lo {
+					best = iv
+				}
+			}
+			e := best.Hi + 1
+			s := best.Lo
+			switch rapid.IntRange(0, 3).Draw(t, "from") {
+			case 0:
+				s = k << 16
+			case 1:
+				s = 0
+			case 2:
+				if keys := x.m.Keys16(); len(keys) > 0 {
+					s = uint64(keys[rapid.IntRange(0, len(keys)-1).Draw(t, "fromKey")])<<16 + gen.Low(t, "fromLow")
+				}
+			}
+			if s >= e {
+				s = best.Lo
+			}
+			if rapid.Bool().Draw(t, "flip") && s == best.Lo {
+				p.log("#%d.Flip(%d,%d)", x.id, s, e)
+				x.b.Flip(s, e)
+				x.m.FlipRange(s, e-1)
+			} else {
+				p.log("#%d.RemoveRange(%d,%d)", x.id, s, e)
+				x.b.RemoveRange(s, e)
+				x.m.RemoveRange(s, e-1)
+			}
+		},
+		"tinyRanges": func(t *rapid.T) {
+			// many very short ranges, each landing in a chunk of its own (often a chunk that does not exist yet)
+			var x *member
+			if rapid.Bool().Draw(t, "onEmpty") {
+				for _, o := range p.ms {
+					if o.m.IsEmpty() {
+						x = o
+					}
+				}
+				if x == nil {
+					x = p.add(roaring.New(), model.New(), false)
+					p.log("#%d=New()", x.id)
+				}
+			} else {
+				x = p.pick(t, "x")
+			}
+			k0 := uint64(0)
+			if keys := x.m.Keys16(); len(keys) > 0 && rapid.Bool().Draw(t, "afterLast") {
+				k0 = uint64(keys[len(keys)-1]) + 1
+			} else if rapid.IntRange(0, 3).Draw(t, "anyKey") == 0 {
+				k0 = uint64(gen.Key(t, "k0"))
+			}
+			n := rapid.IntRange(1, 14).Draw(t, "count")
+			w := uint64(rapid.IntRange(1, 4).Draw(t, "width"))
+			stride := uint64(rapid.SampledFrom([]int{65536, 65536, 65537, 131072}).Draw(t, "stride"))
+			lo := k0<<16 + rapid.SampledFrom([]uint64{0, 1, 100, 65534, 65535}).Draw(t, "low")
+			how := rapid.IntRange(0, 2).Draw(t, "how")
+			p.log("#%d.tinyRanges(%s from=%d width=%d stride=%d count=%d)", x.id, []string{"AddRange", "Flip", "static Flip"}[how], lo, w, stride, n)
+			for i := 0; i < n; i++ {
+				s := lo + uint64(i)*stride
+				e := s + w
+				if e > model.Max32+1 {
+					break
+				}
+				switch how {
+				case 0:
+					x.b.AddRange(s, e)
+					x.m.AddRange(s, e-1)
+				case 1:
+					x.b.Flip(s, e)
+					x.m.FlipRange(s, e-1)
+				default:
+					x.b = roaring.Flip(x.b, s, e)
+					x.m.FlipRange(s, e-1)
+				}
 			}
 		},
 		"andNotOwnPrefix": func(t *rapid.T) {
